@@ -68,17 +68,75 @@ class Meta:
         """Message class base name as the python package names it (typeName, with suffix rules)."""
         return msg.get("typeName") or ""
 
-    def roots(self):
-        """(root name, kind, type expr or message) for every protocol type T of C01."""
+    @staticmethod
+    def _suffixed(t, suf):
+        return t if t.endswith(suf) else t + suf
+
+    def message_roots(self):
+        """(python class name, kind, synthetic literal type) for request / response / notification classes."""
+        ID = {"kind": "or", "items": [{"kind": "base", "name": "integer"}, {"kind": "base", "name": "string"}]}
+        IDN = {"kind": "or", "items": ID["items"] + [{"kind": "base", "name": "null"}]}
+        JR = {"name": "jsonrpc", "type": {"kind": "stringLiteral", "value": "2.0"}}
+
+        def lit(props):
+            return {"kind": "literal", "value": {"properties": props}}
+
+        for r in self.doc["requests"]:
+            tn = r.get("typeName")
+            if not tn:
+                continue
+            cn = self._suffixed(tn, "Request")
+            props = [{"name": "id", "type": ID}]
+            if r.get("params") is not None:
+                props.append({"name": "params", "type": r["params"]})
+            props += [{"name": "method", "type": {"kind": "stringLiteral", "value": r["method"]}}, JR]
+            yield (cn, "request", lit(props))
+            yield (cn[: -len("Request")] + "Response", "response",
+                   lit([{"name": "id", "type": IDN}, {"name": "result", "type": r["result"]}, JR]))
+        for n in self.doc["notifications"]:
+            tn = n.get("typeName")
+            if not tn:
+                continue
+            cn = self._suffixed(tn, "Notification")
+            props = []
+            if n.get("params") is not None:
+                props.append({"name": "params", "type": n["params"]})
+            props += [{"name": "method", "type": {"kind": "stringLiteral", "value": n["method"]}}, JR]
+            yield (cn, "notification", lit(props))
+
+    def roots(self, messages=True):
+        """(root name, kind, type expr) for every protocol type T of C01."""
         for s in self.doc["structures"]:
             yield (s["name"], "structure", {"kind": "reference", "name": s["name"]})
         for a in self.doc["typeAliases"]:
             yield (a["name"], "alias", {"kind": "reference", "name": a["name"]})
+        if messages:
+            yield from self.message_roots()
+
+
+def type_sig(t) -> str:
+    k = t["kind"]
+    if k in ("base", "reference"):
+        return t["name"]
+    if k == "array":
+        return type_sig(t["element"]) + "[]"
+    if k == "map":
+        return "{" + type_sig(t["key"]) + ":" + type_sig(t["value"]) + "}"
+    if k in ("or", "and", "tuple"):
+        return k + "(" + ",".join(type_sig(i) for i in t["items"]) + ")"
+    if k == "stringLiteral":
+        return repr(t["value"])
+    if k == "literal":
+        return "{" + ",".join(p["name"] for p in t["value"]["properties"]) + "}"
+    return k
 
 
 class ValueGen:
-    def __init__(self, meta: Meta, rnd: random.Random, max_depth: int = 5):
+    def __init__(self, meta: Meta, rnd: random.Random, max_depth: int = 5, extras: bool = False):
         self.m, self.rnd, self.max_depth = meta, rnd, max_depth
+        self.extras = extras          # inject undeclared properties at every protocol-object node (C15)
+        self.n_extras = 0
+        self.or_sites: dict = {}      # path-insensitive record of (or-signature -> alternatives taken)
 
     # ---- primitives
     def base(self, name, mode):
@@ -169,6 +227,8 @@ class ValueGen:
                     idx = 0
                 else:
                     idx = self.rnd.randrange(len(items))
+            sig = "|".join(type_sig(i) for i in items)
+            self.or_sites.setdefault(sig, set()).add(idx)
             return self.value(items[idx], mode, depth, path + (f"|{idx}",), choose)
         if k == "and":
             out = {}
@@ -208,4 +268,11 @@ class ValueGen:
                 if mode == "rand" and self.rnd.random() < 0.5:
                     continue
             out[p["name"]] = self.value(p["type"], mode, depth + 1, path + ("." + p["name"],), choose)
+        if self.extras:
+            names = {p["name"] for p in props}
+            for _ in range(self.rnd.choice([1, 1, 2])):
+                k = self.rnd.choice(["xUnknown", "_vendorExt", "zz9", "futureProperty"]) + str(self.rnd.randint(0, 9))
+                if k not in names:
+                    out[k] = self.rnd.choice(ANY_PAYLOADS)
+                    self.n_extras += 1
         return out
